@@ -70,7 +70,7 @@ def emissions(ctx, E):
 
 def driver_appended(ctx):
     """string constants the driver pushes onto the code vector (e.g. the final hlt)"""
-    drv = ctx.program.by_name.get(("bin", "driver::driver::CMDDriver::run"))
+    drv = ctx.program.find("bin", "driver::driver::CMDDriver::run")
     outs = []
     if not drv:
         return outs
@@ -170,7 +170,7 @@ def run(ctx, chk):
     structural_guarantees(ctx, chk, E, down_eval)
 
     # ---- R6 driver dispatch
-    drv = ctx.program.by_name.get(("bin", "driver::driver::CMDDriver::run"))
+    drv = ctx.program.find("bin", "driver::driver::CMDDriver::run")
     ints_interp = int_constants(down_eval["interpreter"], "int")
     if drv is None or not ints_interp:
         chk.undecided_("C10.R6", "CMDDriver::run", "driver or interpreter int set not found")
